@@ -18,7 +18,7 @@ Task: make a small source change to the library (under src/) that BREAKS this pr
   2. the breakage needs something specific to manifest - a multi-step sequence of operations, an unusual or degenerate input, a particular dimension/option combination, a fault or failure at a particular point, or two cooperating sites that each look fine alone - NOT something that any ordinary use or the existing tests would expose at once;
   3. it is realistic: the kind of mistake a maintainer could make in a refactor or optimisation (a dropped update of a cache, an off-by-one in a bound, a wrong comparison, a skipped re-validation on one path, a rollback that forgets one field, ...), not sabotage like `if x == 42`.
 
-Also write a demonstration: a standalone Rust integration test file `tests/demo_{pid.lower()}.rs` in the worktree (using only the crate's public API) that FAILS with your change and PASSES on the original code (verify both: `git stash` / `git stash pop`, or apply/revert your patch). Keep the demonstration minimal and deterministic.
+Also write a demonstration: a standalone Rust integration test file `tests/demo_{pid.lower()}.rs` in the worktree (using only the crate's public API) that FAILS with your change and PASSES on the original code (verify both by reverting and re-applying your patch with `git diff > /tmp/wt-{pid}/my.patch; git apply -R /tmp/wt-{pid}/my.patch` ... `git apply /tmp/wt-{pid}/my.patch`; do NOT use `git stash`: the stash is shared between worktrees and other people are working in sibling worktrees). Keep the demonstration minimal and deterministic.
 
 Deliverables (write them into /tmp/wt-{pid}/DELIVER/):
   - patch.diff : `git diff` of your change to src/ only (not including the demo test)
